@@ -9,6 +9,14 @@ _NOTE = ("trusted: CrossHair's models of str/list/dict/re with the corrections E
 CLAIMS = {
     "C01": dict(z=True, text=_X + "; plus z3 regular-language equivalence of every live template regex of the shipped configuration with a per-segment oracle and first-match order witnesses.",
                 note=_NOTE, technique="symbolic execution of Sid()/sid_to_sid/sid_to_dict (CrossHair+z3) against a reference typer; z3 regex language equivalence on the shipped templates"),
+    "C02": dict(text=_X + ". Round trips through uri / copy / permuted field dictionaries / query string and the equality law are asserted on the real Sid objects for every string in each prefix partition.",
+                note=_NOTE, technique="symbolic execution of Sid(uri)/Sid(fields=)/Sid(query=)/__eq__/__repr__ (CrossHair+z3), all strings per partition"),
+    "C03": dict(text=_X + ". get_as for every key index, parent, '/', len/keytype/basetype and the untyped fallbacks are asserted for every string in each prefix partition.",
+                note=_NOTE, technique="symbolic execution of get_as/parent/__truediv__ (CrossHair+z3) against prefix laws"),
+    "C04": dict(text=_X + ". The real apply_query/get_with run against an overlay + decision-table oracle for every value of 1-3 characters per (base Sid, key) pair; keys from a finite pool.",
+                note=_NOTE, technique="symbolic execution of apply_query/update/get_with (CrossHair+z3) against an overlay/decision-table oracle"),
+    "C19": dict(z=True, text=_X + ". extrapolate_templates / pattern_replacing are executed on a generated family of configurations (names from pools chosen by symbolic indices) against a reference; the live shipped table is compared with the reference applied to the raw module.",
+                note=_NOTE, technique="symbolic execution of extrapolate_templates/pattern_replacing (CrossHair+z3) over a solver-enumerated configuration grammar; reference comparison of the live table"),
 }
 
 NOT_APPLICABLE = {}
